@@ -630,24 +630,30 @@ impl Array {
         if self.dimensions == dimensions {
             self
         } else {
-            let flatten_dimension_count = self.dimensions.len().saturating_sub(dimensions.len());
+            // the target dimensions are aligned from the last dimension, and every value is summed into
+            // the target index which stays at zero along broadcast (missing, or unit) dimensions
+            let skip_count = self.dimensions.len().saturating_sub(dimensions.len());
 
-            let op: SlicedOp = Box::new(move |output_slice, arrays| {
-                let stride = output_slice.len();
-                for (i, output) in output_slice.iter_mut().enumerate() {
-                    *output += arrays[0].iter().skip(i).step_by(stride).sum::<Float>();
+            let mut values = vec![0.0; dimensions.iter().product()];
+            let mut indices = vec![0; self.dimensions.len()];
+            for value in self.values.iter() {
+                let offset = dimensions
+                    .iter()
+                    .zip(indices.iter().skip(skip_count))
+                    .fold(0, |acc, (d, i)| acc * d + if *d == 1 { 0 } else { *i });
+                values[offset] += value;
+
+                for (x, d) in indices.iter_mut().zip(&self.dimensions).rev() {
+                    if *x == *d - 1 {
+                        *x = 0;
+                    } else {
+                        *x += 1;
+                        break;
+                    }
                 }
-            });
+            }
 
-            Array::sliced_op(
-                vec![&self],
-                &op,
-                None,
-                &self.dimensions,
-                dimensions,
-                flatten_dimension_count + 1,
-                0,
-            )
+            Array::from((dimensions.to_vec(), values))
         }
     }
 
